@@ -20,6 +20,7 @@ import (
 	"sync/atomic"
 	"time"
 
+	"github.com/smallnest/rpcx/internal/verifhook"
 	"github.com/smallnest/rpcx/log"
 	"github.com/smallnest/rpcx/protocol"
 	"github.com/smallnest/rpcx/share"
@@ -523,6 +524,7 @@ func (s *Server) serveConn(conn net.Conn) {
 }
 
 func (s *Server) processOneRequest(ctx *share.Context, req *protocol.Message, conn net.Conn) {
+	verifhook.At("server.process.enter", req)
 	defer func() {
 		if r := recover(); r != nil {
 			buf := make([]byte, 1024)
